@@ -67,6 +67,14 @@ func genMigFile(rng *rand.Rand, pkg string) (legacy, fresh string) {
 	if rng.Intn(2) == 0 {
 		w("/*" + nl + "// +govalid:required" + nl + "   // +govalid:email" + nl + "*/" + nl + nl)
 	}
+	if rng.Intn(4) == 0 {
+		// a long block comment closed on a look-alike line that is followed by a trailing comment
+		w("/*" + nl)
+		for i, n := 0, 14+rng.Intn(70); i < n; i++ {
+			w(" * x" + nl)
+		}
+		w("// +govalid:gt=1 */ // +govalid:tail" + nl + nl)
+	}
 	if rng.Intn(3) == 0 {
 		w("var lookalike = \"// +govalid:required\" // +govalid:not-a-doc-comment" + nl + nl)
 	}
@@ -190,10 +198,29 @@ func migCorpus(pkg string) [][2]string {
 			"package " + pkg + "\r\n\r\ntype T struct {\r\n\t//govalid:gt=1\r\n\tB int\r\n}\r\n\r\n  \t//govalid:cel=value == 1 + 2"},
 		{h + t("\t//govalid:required\n\tA string\n") + "// +govalid:required",
 			h + t("\t//govalid:required\n\tA string\n") + "//govalid:required"},
+		// CRLF file with a LONG block comment (30 and 70 lines) whose last line is a look-alike that closes the comment and is
+		// followed by a trailing legacy-looking comment: nothing on that line is a marker; the real marker below is
+		longBlock(pkg, 30, "\r\n"), longBlock(pkg, 70, "\r\n"), longBlock(pkg, 30, "\n"), longBlock(pkg, 16, "\r\n"),
 		// nested anonymous struct with markers at two indentation depths, spaces and tabs mixed
 		{h + t("\t// +govalid:required\n\tIn struct {\n\t\t  // +govalid:minlength=2\n\t\tA string\n\t}\n"),
 			h + t("\t//govalid:required\n\tIn struct {\n\t\t  //govalid:minlength=2\n\t\tA string\n\t}\n")},
 	}
+}
+
+// longBlock: a block comment of n lines, closed on a look-alike line that is followed by a trailing comment
+func longBlock(pkg string, n int, nl string) [2]string {
+	var lb, nb strings.Builder
+	w := func(x string) { lb.WriteString(x); nb.WriteString(x) }
+	w("package " + pkg + nl + nl + "/* notes" + nl)
+	for i := 0; i < n-2; i++ {
+		w(" * line" + nl)
+	}
+	w("// +govalid:required */ // +govalid:email" + nl + nl)
+	w("type T struct {" + nl)
+	lb.WriteString("\t// +govalid:required" + nl)
+	nb.WriteString("\t//govalid:required" + nl)
+	w("\tA string" + nl + "}" + nl)
+	return [2]string{lb.String(), nb.String()}
 }
 
 func tokensOf(src string) string {
